@@ -608,7 +608,12 @@ class QuorumSensing:
         abstain_votes: list[Vote]
     ) -> QuorumResult:
         """Fixed threshold count (e.g., need exactly N permits)."""
-        threshold = int(self.custom_threshold or len(self.colony) // 2 + 1)
+        if self.custom_threshold and self.custom_threshold < 1:
+            # A fraction of the colony (e.g. EmergencyQuorum's 0.3), at least one permit
+            # (rounded first so that e.g. 0.7 * 10 == 7.000000000000001 still means 7)
+            threshold = max(1, math.ceil(round(self.custom_threshold * len(self.colony), 9)))
+        else:
+            threshold = int(self.custom_threshold or len(self.colony) // 2 + 1)
 
         reached = len(permit_votes) >= threshold
         decision = VoteType.PERMIT if reached else VoteType.BLOCK
